@@ -72,7 +72,10 @@ def expected_model(lines: list[dict]) -> dict:
                 s["fields"].append({"kind": "PaddingField", "type": st[1], "name": "", "doc": d, "str": st[1]})
             elif st[0] == "const":
                 v = st[3]
-                vs = str(v) if not isinstance(v, dict) else ("%d/%d" % tuple(v["q"]) if v["q"][1] != 1 else str(v["q"][0]))
+                if isinstance(v, dict) and "bool" in v:
+                    vs = "true" if v["bool"] else "false"
+                else:
+                    vs = str(v) if not isinstance(v, dict) else ("%d/%d" % tuple(v["q"]) if v["q"][1] != 1 else str(v["q"][0]))
                 s["constants"].append({"type": st[1], "name": st[2], "value": v, "doc": d, "str": "%s %s = %s" % (st[1], st[2], vs)})
         out_sections.append(s)
     return {"service": len(sections) == 2, "deprecated": deprecated, "sections": out_sections, "prints": prints}
